@@ -88,7 +88,7 @@ def scripts(max_nodes, kinds, leaves=LEAVES, root_kinds=None):
 
     roots = [s for s in shp if root_kinds is None or s[0] in root_kinds]
     for ns, idx in build(max_nodes, [], roots):
-        if ns[idx][0] in ('none', 'int', 'str', 'dstr', 'bool'):
+        if ns[idx][0] in ('none', 'int', 'str', 'dstr', 'bool', 'bytes'):
             continue
         yield tuple(ns)
 
@@ -106,6 +106,8 @@ def construct(script, g):
             v = spec[1]
         elif k == 'str':
             v = spec[1]
+        elif k == 'bytes':
+            v = bytes(bytearray(spec[1]))       # a bytes leaf (a sequence, but not a container of the tree)
         elif k == 'dstr':
             v = ''.join(list(spec[1]))          # a fresh, equal string object
         elif k == 'list':
